@@ -1,0 +1,14 @@
+//go:build verif
+
+package types
+
+// Contracts checked by /verif (gvc). This file contains comments only and is compiled only with -tags verif.
+
+// address = 0x00 || sha3-256(pubkey)[:19]; the hash stays uninterpreted.
+//@ spec addrOfKey(pk int) arr
+//@   axiom result[0] == 0
+
+//@ func PubKeyToAddress(pubKey)
+//@   trusted
+//@   ensures result == addrOfKey(bytesval(pubKey))
+//@   modifies nothing
